@@ -39,17 +39,26 @@ TRUSTED = [
     "that the importers implement the modelled semantics is established by the differential run only",
 ]
 PARTIAL = [
-    "the theorems are about the semantics (values, pitch letters, spine additivity, tie joining, divisions); "
-    "importer = semantics is compared on generated documents and the fixtures, not proved",
-    "mei_inferPpq_exact_partial: tuplets on breve/long values excluded (the code raises there), mRest lengths need unit | 4*ppq*beats",
-    "export_import is checked on generated exportable parts only (no model of the writers)",
+    "the theorems are about the semantics (values, pitch letters, spine additivity, tie joining, grace notes, divisions, "
+    "inferred ppq); importer = semantics is compared on generated documents and the fixtures, not proved",
+    "export_import is checked on generated exportable parts only (no Lean model of the two writers)",
+    "kern: at most two simultaneous sub-spines per **kern spine, all spines in one *part or each its own part "
+    "(mixed *part groupings, *x exchanges and **dynam etc. spines are not generated); ties on chord notes only "
+    "when the open finding F-C19-kern-chord-ties is registered",
+    "MEI: repeats/endings, @tie attributes, nested tuplets, staffDef changes inside a section are outside the generated subset "
+    "(fixtures containing them are compared for notes, measures, signatures and ppq only)",
+    "verovio path of load_mei not exercised (not installed); 2 MEI fixtures need it and are skipped, 1 kern fixture has a malformed header (load only)",
 ]
-RULE = ("abstract scores (1-3 staves x 1-2 voices x 1-4 measures, meters 2/4..12/8 and 4/2, pickups, plain/dotted/"
-        "double-dotted/tuplet values, chords, rests, graces, ties, meter changes) written as kern (main spines or "
-        "spine splits, separate parts or one *part) and MEI (meter/key/clef as attributes or children of staffDef/"
-        "scoreDef, declared or inferred ppq, beams, tuplets, spaces, mRest, tie elements) by this module's own "
-        "writers; exporter round trips; all kern/mei fixtures; distinct = distinct document text; non-trivial = "
-        "at least one note loaded")
+RULE = ("abstract scores (1-3 staves x 1-2 voices x 1-4 measures; 13 meters incl. 5/8, 7/8, 4/2; pickups; meter changes; "
+        "plain / dotted / double-dotted / tuplet (3:2, 5:4, 6:4, 7:4, dotted-in-tuplet) values down to 32nds, breves and longs; "
+        "chords, rests, grace notes, ties over barlines, silent measures) written by this module's own writers as kern "
+        "(main spines or *^ / *v sub-spines also in mid-measure, one *part / *I group or separate parts, *staff, *clef, *k[], *M, "
+        "*MM, barline styles, a%b reciprocals, comments, decorations) and as MEI (meter/key/clef as attributes or children of "
+        "staffDef / scoreDef, @ppq and/or @dur.ppq or neither, nested staffGrp and sections, beams, tuplets, chords, accid / "
+        "accid.ges / <accid>, mRest, space with and without @dur, incomplete layers, <tie> elements, scoreDef meter changes), "
+        "loaded through load_kern / load_mei / load_score(.krn .kern .KRN .mei .MEI); exporter round trips on exportable parts; "
+        "every kern/mei fixture; extension dispatch; table comparison; corpus = shrunk witnesses of the 22 repaired defects + "
+        "hand-written mid-measure splits.  distinct = distinct document text; non-trivial = at least one note loaded")
 LEVEL_TEXT = ("Lean theorems over all token lists about the denotational semantics (duration values, pitch letters, "
               "onset additivity, tie joining, grace notes, exact divisions, inferred ppq); the importers are tied to the "
               "semantics by a differential run on generated kern/MEI documents and every fixture, with an independent "
@@ -305,6 +314,90 @@ def n_measures(asc):
     return len(asc["staves"][0]["voices"][0])
 
 
+def delay_subvoices(asc, rng, p=0.5):
+    """second voices that exist only for a part of a measure: leading / trailing events become "s"
+    (nothing there) when the boundary coincides with an onset of the first voice (a spine can only split or
+    join between two tokens) and no tie or tuplet bracket is cut"""
+    import copy
+
+    a = copy.deepcopy(asc)
+    for st in a["staves"]:
+        if len(st["voices"]) < 2:
+            continue
+        v1, v2 = st["voices"][0], st["voices"][1]
+        for m in range(len(v2)):
+            if not v1[m] or not v2[m] or rng.random() > p:
+                continue
+            on1, pos = set(), F(0)
+            for e in v1[m]:
+                if e["t"] != "g":
+                    on1.add(pos)
+                pos += ev_value(e)
+            evs = v2[m]
+            # candidate cut points: index k (1..len-1) such that the onset of evs[k] is an onset of voice 1
+            pos, cuts = F(0), []
+            for k, e in enumerate(evs):
+                if k > 0 and e["t"] != "g" and pos in on1:
+                    cuts.append(k)
+                pos += ev_value(e)
+            if not cuts:
+                continue
+            prev_tied = m > 0 and v2[m - 1] and [x for x in v2[m - 1] if x["t"] != "g"][-1].get("tie")
+
+            def clean(seg):
+                return all(x["t"] in ("n", "r") and not x.get("tie") and not x.get("tup") for x in seg)
+
+            mode = rng.choice(["lead", "trail", "both"])
+            k1 = rng.choice(cuts)
+            if mode in ("lead", "both") and clean(evs[:k1]) and not prev_tied and (k1 == 0 or not evs[k1 - 1].get("tie")):
+                # a grace note directly before evs[k1] stays with it: cut before the grace notes
+                for x in evs[:k1]:
+                    x["t"] = "s"
+                    x.pop("p", None)
+            later = [k for k in cuts if k > k1]
+            if mode in ("trail", "both") and later:
+                k2 = rng.choice(later)
+                kk = k2
+                while kk > 0 and evs[kk - 1]["t"] == "g":
+                    kk -= 1
+                if kk > k1 and clean(evs[k2:]) and not evs[kk - 1].get("tie") and not (evs[kk - 1].get("tup")) \
+                        and all(x["t"] != "s" for x in evs[:kk][-1:]):
+                    for x in evs[kk:]:
+                        x["t"] = "s"
+                        x.pop("p", None)
+            if all(x["t"] in ("s", "g") for x in evs):
+                v2[m] = None
+    return untie_last(a)
+
+
+def spaces_aligned(asc):
+    """every place where a second voice starts or stops existing inside a measure is an onset of the first voice"""
+    for st in asc["staves"]:
+        if len(st["voices"]) < 2:
+            continue
+        v1, v2 = st["voices"][0], st["voices"][1]
+        for m in range(len(v2)):
+            if not v2[m] or not any(e["t"] == "s" for e in v2[m]):
+                continue
+            if not v1[m]:
+                return False
+            on1, pos = set(), F(0)
+            for e in v1[m]:
+                if e["t"] != "g":
+                    on1.add(pos)
+                pos += ev_value(e)
+            pos, prev_s = F(0), None
+            for e in v2[m]:
+                if e["t"] == "g":
+                    continue
+                is_s = e["t"] == "s"
+                if prev_s is not None and is_s != prev_s and pos not in on1:
+                    return False
+                prev_s = is_s
+                pos += ev_value(e)
+    return True
+
+
 def untie_last(asc):
     """a tie needs a following note: drop dangling ties (after shrinking)"""
     for st in asc["staves"]:
@@ -342,7 +435,8 @@ def expected_voice(asc, si, vi, fill_silent):
         else:
             for e in mm:
                 val = ev_value(e)
-                out.append((pos, val, e["t"], e.get("p", []), bool(e.get("tie"))))
+                kind = "r" if (e["t"] == "s" and fill_silent) else e["t"]
+                out.append((pos, val, kind, e.get("p", []), bool(e.get("tie"))))
                 pos += val
         t0 += lens[m]
     return out
@@ -456,6 +550,12 @@ def write_kern(asc, lay, rng):
                     continue
                 evs = [{"t": "r", "v": v, "d": d, "tup": None} for (v, d) in rest_fill(lens[m])]
             for e in evs:
+                if e["t"] == "s" and fill_silent:
+                    e = dict(e, t="r")   # a main spine has to be rhythmically complete: a rest
+                if e["t"] == "s":      # the sub-spine does not exist here: no token, time passes
+                    pos += ev_value(e)
+                    tie_in = False
+                    continue
                 deco = {}
                 if lay.get("deco"):
                     deco["nat"] = rng.random() < 0.3
@@ -517,47 +617,76 @@ def write_kern(asc, lay, rng):
             sty = lay.get("barstyle", "") if m > 0 else lay.get("bar0style", "")
             row_all(lambda i, si, vi: "=%d%s" % (barno, sty))
             barno += 1
-        # spine paths
+        # spine paths: a sub-spine exists from its first to its last token of the measure
+        span = {}
         for i, mn in enumerate(mains):
             if mn["sub"] is None:
                 continue
-            want = streams[(mn["si"], mn["sub"])][m] is not None
-            if active[i] and not want:
-                cells = []
-                for (j, si, vi) in cols_now():
-                    cells.append("*v" if j == i else "*")
-                rows.append(cells)
+            items = streams[(mn["si"], mn["sub"])][m]
+            if items:
+                voice = asc["staves"][mn["si"]]["voices"][mn["sub"]][m]
+                pos, first, last = F(0), None, None
+                for e in voice:
+                    if e["t"] != "s":
+                        if first is None:
+                            first = pos
+                        last = pos + ev_value(e)
+                    pos += ev_value(e)
+                span[i] = (first, last)
+
+        def path_row(i, op):
+            rows.append([op if j == i else "*" for (j, si, vi) in cols_now()])
+
+        for i, mn in enumerate(mains):
+            if mn["sub"] is None:
+                continue
+            if active[i] and (i not in span or span[i][0] > 0):
+                path_row(i, "*v")
                 active[i] = False
-            elif not active[i] and want:
-                cells = []
-                for (j, si, vi) in cols_now():
-                    cells.append("*^" if j == i else "*")
-                rows.append(cells)
+            elif not active[i] and i in span and span[i][0] == 0:
+                path_row(i, "*^")
                 active[i] = True
         if str(m) in asc.get("meterchg", {}) and m > 0:
             row_all(lambda i, si, vi: "*M%d/%d" % tuple(asc["meterchg"][str(m)]))
         # data rows of the measure, time ordered; grace tokens get their own row before the note at that time
-        cn = cols_now()
+        all_cols = []
+        for i, mn in enumerate(mains):
+            all_cols.append((i, mn["si"], mn["vs"][0]))
+            if mn["sub"] is not None and i in span:
+                all_cols.append((i, mn["si"], mn["sub"]))
         events = []
-        for ci, (i, si, vi) in enumerate(cn):
-            for k, (pos, tok, is_g) in enumerate(streams[(si, vi)][m]):
-                events.append((pos, ci, k, tok, is_g))
+        for (i, si, vi) in all_cols:
+            for k, (pos, tok, is_g) in enumerate(streams[(si, vi)][m] or []):
+                events.append((pos, (i, vi), k, tok, is_g))
         times = sorted(set(e[0] for e in events))
         for t in times:
+            for i in list(span):
+                if active[i] and span[i][1] == t and t < lens[m]:
+                    path_row(i, "*v")          # the second voice ends before the measure does
+                    active[i] = False
+                    del span[i]
+            for i in span:
+                if not active[i] and span[i][0] == t:
+                    path_row(i, "*^")          # ... or starts in the middle of it
+                    active[i] = True
+            cn = cols_now()
             here = [e for e in events if e[0] == t]
-            # number of grace rows needed = max graces in a column at this time
             per_col = {}
             for e in here:
                 per_col.setdefault(e[1], []).append(e)
             depth = max(len(v) for v in per_col.values())
             for r in range(depth):
                 cells = []
-                for ci in range(len(cn)):
-                    lst = sorted(per_col.get(ci, []), key=lambda e: e[2])
+                for (i, si, vi) in cn:
+                    lst = sorted(per_col.get((i, vi), []), key=lambda e: e[2])
                     # right-align: the main note in the last row
                     k = r - (depth - len(lst))
                     cells.append(lst[k][3] if 0 <= k < len(lst) else ".")
                 rows.append(cells)
+        for i in list(span):
+            if active[i] and span[i][1] < lens[m]:
+                path_row(i, "*v")
+                active[i] = False
     # final barline, joins, terminator
     if lay.get("final", "==") is not None:
         row_all(lambda i, si, vi: lay.get("final", "=="))
@@ -608,6 +737,11 @@ def kern_expect(asc, lay, mains):
             t += lens[m]
         if lay.get("final", "==") is not None:
             starts.append(t)
+        # a measure lasts until the next barline, the last one until the end of the part;
+        # what precedes the first barline is the pickup measure
+        spans = [(a, b) for a, b in zip(starts, starts[1:] + [t])]
+        if starts and starts[0] != 0:
+            spans.insert(0, (F(0), starts[0]))
         ts = [(F(0), asc["meter"][0], asc["meter"][1])]
         t = F(0)
         for m in range(nm):
@@ -616,8 +750,8 @@ def kern_expect(asc, lay, mains):
             t += lens[m]
         clefs = sorted(set((F(0), staff_no(mains[i]["si"]), asc["staves"][mains[i]["si"]]["clef"][0],
                             asc["staves"][mains[i]["si"]]["clef"][1]) for i in g))
-        parts.append({"notes": notes, "joined": joined, "mstarts": starts, "end": t, "ts": ts,
-                      "ks": [(F(0), asc["key"])], "clefs": clefs})
+        parts.append({"notes": notes, "joined": joined, "mstarts": [a for a, _ in spans], "mends": [b for _, b in spans],
+                      "end": t, "ts": ts, "ks": [(F(0), asc["key"])], "clefs": clefs})
     return parts
 
 
@@ -729,8 +863,7 @@ def write_mei(asc, opt, rng):
                     # "omit": no layer at all
                     continue
                 w("<layer%s>" % lattr)
-                if opt.get("mrest_all") and full and all(e["t"] == "r" for e in mm) and len(mm) == 1 and False:
-                    pass
+                mm = short_layer(opt, si, vi, m, mm)
                 # group events: tuplets (same tg) and beams
                 i = 0
                 open_beam = False
@@ -768,6 +901,21 @@ def write_mei(asc, opt, rng):
         w("</section>")
     w("</section></score></mdiv></body></music></mei>")
     return "\n".join(x for x in out if x) + "\n"
+
+
+def short_layer(opt, si, vi, m, mm):
+    """an incomplete layer ("bad encoding, but it often happens"): the second voice of the chosen measure
+    stops before the end of the measure (its last event is not written, nothing tied into or out of it)"""
+    sl = opt.get("short")
+    if sl and vi == 1 and [si, m] == list(sl) and mm and len(mm) > 1:
+        k = len(mm) - 1
+        while k > 0 and (mm[k]["t"] == "g" or mm[k].get("tie") or mm[k - 1].get("tie") or mm[k].get("tup") or mm[k]["t"] == "s"):
+            k -= 1
+        if k > 0 and not mm[k].get("tup") and mm[k]["t"] in ("n", "r") and not mm[k].get("tie") and not mm[k - 1].get("tie"):
+            # only a plain trailing run may be cut, and only if nothing later in the measure is tied
+            if all(not e.get("tie") for e in mm[k:]) and all(not e.get("tup") for e in mm[k:]):
+                return mm[:k]
+    return mm
 
 
 def silent_mode(opt, vi, full):
@@ -857,7 +1005,7 @@ def mei_expect(asc, opt):
                     if mode != "omit":
                         ends[m].append(pos + lens[m])
                 else:
-                    for e in mm:
+                    for e in short_layer(opt, si, vi, m, mm):
                         evs.append((pos, ev_value(e), e["t"], e.get("p", []), bool(e.get("tie"))))
                         pos += ev_value(e)
                     ends[m].append(pos)
@@ -961,7 +1109,8 @@ def rand_mei_opt(rng, asc):
             "meterchg": rng.choice(["attr", "child"]), "grace": rng.choice(["acc", "unacc", "unknown"]),
             "nested_section": rng.random() < 0.2, "sb": rng.random() < 0.3, "right_end": rng.random() < 0.5,
             "labels": rng.random() < 0.5, "stems": rng.random() < 0.3, "first_n": rng.choice([1, 1, 0, 12]),
-            "sd_children_first": rng.random() < 0.5, "space_nodur": rng.random() < 0.3}
+            "sd_children_first": rng.random() < 0.5, "space_nodur": rng.random() < 0.3,
+            "short": [rng.randrange(len(asc["staves"])), rng.randrange(n_measures(asc))] if rng.random() < 0.3 else None}
 
 
 # ============================================================================ implementation side
@@ -1117,11 +1266,6 @@ def oracle_compare(exp_parts, infos, fails, check_sigs=True, mname=None):
             em = sorted(zip(ex["mstarts"], ex["mends"]))
             if gm != em:
                 fails.append("measures: %sspan %s, encoded %s" % (tag, [(str(a), str(b)) for a, b in gm], [(str(a), str(b)) for a, b in em]))
-            gstarts = estarts = None
-        gstarts = sorted(m[2] for m in inf["measures"])
-        estarts = sorted(set(ex["mstarts"]) | ({F(0)} if ex["mstarts"] and min(ex["mstarts"]) != 0 else set()))
-        if gstarts != estarts:
-            fails.append("measures: %sstart at %s, barlines are at %s" % (tag, list(map(str, gstarts)), list(map(str, estarts))))
         if check_sigs:
             if [tuple(t) for t in inf["ts"]] != [tuple(t) for t in ex["ts"]]:
                 fails.append("meter: %sloaded %s, declared %s" % (tag, [tuple(map(str, t)) for t in inf["ts"]], [tuple(map(str, t)) for t in ex["ts"]]))
@@ -1411,7 +1555,7 @@ def rand_layout(rng):
 
 
 def cases(rng, tier):
-    n = {"quick": 160, "thorough": 2000, "search": 1200}.get(tier, 160)
+    n = {"quick": 160, "thorough": 4000, "search": 1200}.get(tier, 160)
     chord_ties = any(k.get("key") == KNOWN_CHORD_TIES and k.get("status") == "open" for k in load_known())
     yield {"k": "tables"}
     yield {"k": "dispatch"}
@@ -1421,7 +1565,10 @@ def cases(rng, tier):
         seed = rng.getrandbits(48)
         r = random.Random(seed)
         asc = gen_asc(r, exotic=r.random() < 0.2, chord_ties=chord_ties and r.random() < 0.3)
-        yield {"k": "kern", "asc": asc, "lay": rand_layout(r), "seed": seed,
+        lay = rand_layout(r)
+        if lay["split"] and r.random() < 0.6:
+            asc = delay_subvoices(asc, r)
+        yield {"k": "kern", "asc": asc, "lay": lay, "seed": seed,
                "via": r.choice(["load_kern", "load_kern", ".krn", ".kern", ".KRN"])}
         seed = rng.getrandbits(48)
         r = random.Random(seed)
@@ -1566,6 +1713,17 @@ def shrink(d):
         c["asc"] = untie_last(a)
         c.update(kw)
         return c
+
+    def shrunk():
+        yield from _shrink(d, asc, nm, mk)
+
+    for c in shrunk():
+        if spaces_aligned(c["asc"]):
+            yield c
+
+
+def _shrink(d, asc, nm, mk):
+    import copy
 
     # fewer staves
     if len(asc["staves"]) > 1:
